@@ -265,6 +265,10 @@ func main() {
 		cmdCrash(os.Args[2:])
 	case "crashchild":
 		crashChild(os.Args[2:])
+	case "pipe":
+		cmdPipe(os.Args[2:])
+	case "pipechild":
+		pipeChild(os.Args[2:])
 	case "lin":
 		cmdLin(os.Args[2:])
 	case "srcfacts":
